@@ -1,1 +1,309 @@
+(** Proofs about the middleware chains (property C19). *)
+From Coq Require Import List Bool Arith Lia.
 From KV Require Import Base Chain.
+Import ListNotations.
+
+Section ChainProofs.
+  Variables C M R St : Type.
+  Notation prog := (prog C M R St).
+  Notation stage := (stage C M R St).
+  Notation event := (event C M R).
+  Notation kont := (kont C M R St).
+
+  (** ** Extensionality of [exec] in the continuation. *)
+  Lemma exec_ext (i : nat) (p : prog) (n1 n2 : kont) :
+    (forall c m s, n1 c m s = n2 c m s) -> forall s, exec i p n1 s = exec i p n2 s.
+  Proof.
+    intros Hn. induction p as [r|c m k IH|k IH|s' k IH|]; intros s; cbn [exec].
+    - reflexivity.
+    - rewrite Hn. destruct (n2 c m s) as [[o s1] t1]. destruct o; try reflexivity.
+      rewrite IH. reflexivity.
+    - apply IH.
+    - apply IH.
+    - reflexivity.
+  Qed.
+
+  Lemma invoke_ext (i : nat) (mdl : stage) (n1 n2 : kont) :
+    (forall c m s, n1 c m s = n2 c m s) -> forall c m s, invoke i mdl n1 c m s = invoke i mdl n2 c m s.
+  Proof. intros Hn c m s. unfold invoke. rewrite (exec_ext i (mdl c m) n1 n2 Hn). reflexivity. Qed.
+
+  Lemma spec_from_ext (stages : list stage) : forall i (k1 k2 : kont),
+    (forall c m s, k1 c m s = k2 c m s) ->
+    forall c m s, spec_from i stages k1 c m s = spec_from i stages k2 c m s.
+  Proof.
+    induction stages as [|st rest IH]; intros i k1 k2 Hk c m s; cbn [spec_from].
+    - apply Hk.
+    - apply invoke_ext. intros c' m' s'. apply IH. exact Hk.
+  Qed.
+
+  Lemma nth_error_skipn {A} (l : list A) : forall i x,
+    nth_error l i = Some x -> skipn i l = x :: skipn (S i) l.
+  Proof.
+    induction l as [|y ys IH]; intros [|i] x H; cbn in *; try discriminate.
+    - injection H as ->. reflexivity.
+    - apply IH. exact H.
+  Qed.
+
+  Lemma nth_error_lt_some {A} (l : list A) i : i < length l -> exists x, nth_error l i = Some x.
+  Proof.
+    intros H. destruct (nth_error l i) as [x|] eqn:E; [exists x; reflexivity|].
+    apply nth_error_None in E. lia.
+  Qed.
+
+  (** ** The per-position chains compute the reference semantics. *)
+  Tactic Notation "chain_tac" reference(chain) :=
+    let fuel := fresh "fuel" in let IH := fresh "IH" in
+    intros mws core fuel; induction fuel as [|fuel IH]; intros i Hf c m s; [lia|];
+    cbn [chain];
+    destruct (i <? length mws) eqn:Hlt;
+    [ apply Nat.ltb_lt in Hlt;
+      destruct (nth_error_lt_some mws i Hlt) as [mdl Hm]; rewrite Hm;
+      rewrite (nth_error_skipn mws i mdl Hm); cbn [spec_from];
+      apply invoke_ext; intros c' m' s'; rewrite Nat.add_1_r; apply IH; lia
+    | apply Nat.ltb_ge in Hlt; rewrite (skipn_all2 mws Hlt); reflexivity ].
+
+  Lemma client_chain_spec : forall (mws : list stage) (core : kont) fuel i,
+    length mws - i < fuel ->
+    forall c m s, client_chain fuel mws core i c m s = spec_from i (skipn i mws) core c m s.
+  Proof. chain_tac client_chain. Qed.
+
+  Lemma server_chain_spec : forall (mws : list stage) (core : kont) fuel i,
+    length mws - i < fuel ->
+    forall c m s, server_chain fuel mws core i c m s = spec_from i (skipn i mws) core c m s.
+  Proof. chain_tac server_chain. Qed.
+
+  Lemma item_chain_spec : forall (mws : list stage) (core : kont) fuel i,
+    length mws - i < fuel ->
+    forall c m s, item_chain fuel mws core i c m s = spec_from i (skipn i mws) core c m s.
+  Proof. chain_tac item_chain. Qed.
+
+  Theorem client_chain_correct (stages : list stage) (core : C -> M -> St -> res R * St) c m s :
+    run_impl_client stages core c m s = run_spec stages core c m s.
+  Proof. unfold run_impl_client, run_spec. rewrite client_chain_spec by lia. reflexivity. Qed.
+
+  Lemma server_chain_run (stages : list stage) (core : C -> M -> St -> res R * St) c m s :
+    server_chain (S (length stages)) stages (core_kont core) 0 c m s = run_spec stages core c m s.
+  Proof. unfold run_spec. rewrite server_chain_spec by lia. reflexivity. Qed.
+
+  Lemma item_chain_run (stages : list stage) (core : C -> M -> St -> res R * St) c m s :
+    item_chain (S (length stages)) stages (core_kont core) 0 c m s = run_spec stages core c m s.
+  Proof. unfold run_spec. rewrite item_chain_spec by lia. reflexivity. Qed.
+
+  (** More fuel changes nothing (the fuel is a device of the model, not of the code). *)
+  Lemma client_chain_fuel (mws : list stage) (core : kont) f1 f2 i c m s :
+    length mws - i < f1 -> length mws - i < f2 ->
+    client_chain f1 mws core i c m s = client_chain f2 mws core i c m s.
+  Proof. intros H1 H2. rewrite !client_chain_spec by assumption. reflexivity. Qed.
+
+  (** ** Outcomes: no fuel exhaustion, no model error; panics only come from a middleware
+      or the innermost handler, never from the chain's own indexing. *)
+  Definition good (o : res R) : Prop := match o with Ok _ => True | Panic => True | _ => False end.
+  Definition kgood (k : kont) : Prop := forall c m s, good (fst (fst (k c m s))).
+
+  Lemma exec_good i (p : prog) (next : kont) : kgood next -> forall s, good (fst (fst (exec i p next s))).
+  Proof.
+    intros Hn. induction p as [r|c m k IH|k IH|s' k IH|]; intros s; cbn [exec].
+    - exact I.
+    - specialize (Hn c m s). destruct (next c m s) as [[o s1] t1]. cbn [fst] in Hn.
+      destruct o; cbn [fst]; try exact Hn.
+      specialize (IH a s1). destruct (exec i (k a) next s1) as [[o2 s2] t2]. exact IH.
+    - apply IH.
+    - apply IH.
+    - exact I.
+  Qed.
+
+  Lemma spec_good (stages : list stage) : forall i (core : kont), kgood core -> kgood (spec_from i stages core).
+  Proof.
+    induction stages as [|st rest IH]; intros i core Hc; cbn [spec_from]; [exact Hc|].
+    intros c m s. unfold invoke.
+    pose proof (exec_good i (st c m) (spec_from (S i) rest core) (IH (S i) core Hc) s) as H.
+    destruct (exec i (st c m) (spec_from (S i) rest core) s) as [[o s1] t1]. exact H.
+  Qed.
+
+  Lemma core_kont_good (core : C -> M -> St -> res R * St) : returns_or_panics core -> kgood (core_kont core).
+  Proof.
+    intros H c m s. unfold core_kont. specialize (H c m s). destruct (core c m s) as [o s1]. exact H.
+  Qed.
+
+  Theorem run_spec_good (stages : list stage) core c m s :
+    returns_or_panics core -> good (fst (fst (run_spec stages core c m s))).
+  Proof. intros H. unfold run_spec. apply spec_good. apply core_kont_good. exact H. Qed.
+
+  Definition kok (k : kont) : Prop := forall c m s, exists r, fst (fst (k c m s)) = Ok r.
+
+  Lemma exec_ok i (p : prog) (next : kont) :
+    crash_free p -> kok next -> forall s, exists r, fst (fst (exec i p next s)) = Ok r.
+  Proof.
+    intros Hp Hn. induction Hp as [r|c m k Hk IH|k Hk IH|s' k Hk IH]; intros s; cbn [exec].
+    - exists r. reflexivity.
+    - destruct (Hn c m s) as [r1 Hr1]. destruct (next c m s) as [[o s1] t1]. cbn [fst] in Hr1. subst o.
+      destruct (IH r1 s1) as [r2 Hr2]. destruct (exec i (k r1) next s1) as [[o2 s2] t2].
+      exists r2. exact Hr2.
+    - apply IH.
+    - apply IH.
+  Qed.
+
+  Lemma spec_ok (stages : list stage) : forall i (core : kont),
+    Forall (fun st : stage => forall c m, crash_free (st c m)) stages -> kok core -> kok (spec_from i stages core).
+  Proof.
+    induction stages as [|st rest IH]; intros i core Hs Hc; cbn [spec_from]; [exact Hc|].
+    inversion Hs as [|? ? Hst Hrest]; subst.
+    intros c m s. unfold invoke.
+    destruct (exec_ok i (st c m) (spec_from (S i) rest core) (Hst c m) (IH (S i) core Hrest Hc) s) as [r Hr].
+    destruct (exec i (st c m) (spec_from (S i) rest core) s) as [[o s1] t1]. exists r. exact Hr.
+  Qed.
+
+  Theorem run_spec_ok (stages : list stage) core c m s :
+    Forall (fun st : stage => forall c m, crash_free (st c m)) stages ->
+    (forall c m s, exists r, fst (core c m s) = Ok r) ->
+    exists r, fst (fst (run_spec stages core c m s)) = Ok r.
+  Proof.
+    intros Hs Hc. unfold run_spec. apply spec_ok; [exact Hs|].
+    intros c' m' s'. unfold core_kont. destruct (Hc c' m' s') as [r Hr].
+    destruct (core c' m' s') as [o s1]. exists r. exact Hr.
+  Qed.
+
+  (** ** Counting. *)
+  Definition b2n (b : bool) : nat := if b then 1 else 0.
+
+  Lemma count_app (f : event -> bool) a b : count f (a ++ b) = count f a + count f b.
+  Proof. unfold count. rewrite filter_app, app_length. reflexivity. Qed.
+
+  Lemma count_cons (f : event -> bool) e t : count f (e :: t) = b2n (f e) + count f t.
+  Proof. unfold count. cbn [filter]. destruct (f e); reflexivity. Qed.
+
+  Lemma count_nil (f : event -> bool) : count f [] = 0.
+  Proof. reflexivity. Qed.
+
+  (** If every completed continuation call (its trace and the [EvBack] that follows)
+      contributes equally to [f] and [g], so does the whole execution of the middleware. *)
+  Lemma exec_count2 (f g : event -> bool) i (p : prog) (next : kont) :
+    (forall c m s r s' t, next c m s = (Ok r, s', t) ->
+       count f t + b2n (f (EvBack i r)) = count g t + b2n (g (EvBack i r))) ->
+    forall s r s' t, exec i p next s = (Ok r, s', t) ->
+      count f t + b2n (g (EvRet i r)) = count g t + b2n (f (EvRet i r)).
+  Proof.
+    intros Hcall. induction p as [r0|c m k IH|k IH|s0 k IH|]; intros s r s' t He; cbn [exec] in He.
+    - injection He as <- <- <-. rewrite !count_cons, !count_nil. lia.
+    - destruct (next c m s) as [[o s1] t1] eqn:En. destruct o; try discriminate.
+      destruct (exec i (k a) next s1) as [[o2 s2] t2] eqn:Ek.
+      injection He as -> <- <-.
+      specialize (IH a s1 r s2 t2 Ek). specialize (Hcall c m s a s1 t1 En).
+      rewrite !count_app, !count_cons. lia.
+    - eapply IH. exact He.
+    - eapply IH. exact He.
+    - discriminate.
+  Qed.
+
+  Lemma starts_back n k i r : starts n k (EvBack i r : event) = false.
+  Proof. unfold starts. destruct (k <? n); reflexivity. Qed.
+  Lemma starts_ret n k i r : starts n k (EvRet i r : event) = false.
+  Proof. unfold starts. destruct (k <? n); reflexivity. Qed.
+  Lemma starts_enter n k i c m : starts n k (EvEnter i c m : event) = (k <? n) && Nat.eqb i k.
+  Proof. unfold starts. destruct (k <? n); reflexivity. Qed.
+  Lemma starts_core n k c m : starts n k (EvCore c m : event) = negb (k <? n).
+  Proof. unfold starts. destruct (k <? n); reflexivity. Qed.
+
+  Lemma count_ext (f g : event -> bool) t : (forall e, f e = g e) -> count f t = count g t.
+  Proof.
+    intros H. induction t as [|e t IH]; [reflexivity|]. rewrite !count_cons, IH, H. reflexivity.
+  Qed.
+  Lemma count_starts_lt n k (t : list event) : k <? n = true -> count (starts n k) t = count (is_enter k) t.
+  Proof. intros H. apply count_ext. intros e. unfold starts. rewrite H. reflexivity. Qed.
+  Lemma count_starts_ge n k (t : list event) : k <? n = false -> count (starts n k) t = count is_core t.
+  Proof. intros H. apply count_ext. intros e. unfold starts. rewrite H. reflexivity. Qed.
+
+  Definition never (_ : event) : bool := false.
+  Lemma count_never t : count never t = 0.
+  Proof. induction t as [|e t IH]; [reflexivity|]. rewrite count_cons. cbn. exact IH. Qed.
+
+  (** The trace of a chain that returned: position [i] starts once; each completed call of
+      the continuation by position [j] starts position [j+1] exactly once; every middleware
+      that was entered returned; nothing outside the chain ran. *)
+  Lemma spec_counts (core : C -> M -> St -> res R * St) (stages : list stage) : forall i c m s r s' t,
+    spec_from i stages (core_kont core) c m s = (Ok r, s', t) ->
+    count (starts (i + length stages) i) t = 1 /\
+    (forall j, i <= j -> j < i + length stages -> count (starts (i + length stages) (S j)) t = count (is_back j) t) /\
+    (forall j, j < i -> count (is_back j) t = 0 /\ count (is_enter j) t = 0) /\
+    (forall j, count (is_enter j) t = count (is_ret j) t).
+  Proof.
+    induction stages as [|st rest IH]; intros i c m s r s' t Hrun; cbn [spec_from length] in *.
+    - unfold core_kont in Hrun. destruct (core c m s) as [o s1]. injection Hrun as -> <- <-.
+      rewrite Nat.add_0_r. refine (conj _ (conj _ (conj _ _))).
+      + rewrite count_cons, count_nil, starts_core, Nat.ltb_irrefl. reflexivity.
+      + intros j H1 H2. lia.
+      + intros j Hj. split; reflexivity.
+      + intros j. reflexivity.
+    - unfold invoke in Hrun.
+      destruct (exec i (st c m) (spec_from (S i) rest (core_kont core)) s) as [[o s1] t1] eqn:Ex.
+      injection Hrun as -> <- <-.
+      replace (i + S (length rest)) with (S i + length rest) by lia.
+      set (n := S i + length rest).
+      assert (Hn : i <? n = true) by (apply Nat.ltb_lt; unfold n; lia).
+      (* facts about every completed inner call *)
+      assert (Hin : forall c' m' s0 r0 s0' t0, spec_from (S i) rest (core_kont core) c' m' s0 = (Ok r0, s0', t0) ->
+                count (starts n (S i)) t0 = 1 /\
+                (forall j, S i <= j -> j < n -> count (starts n (S j)) t0 = count (is_back j) t0) /\
+                (forall j, j < S i -> count (is_back j) t0 = 0 /\ count (is_enter j) t0 = 0) /\
+                (forall j, count (is_enter j) t0 = count (is_ret j) t0))
+        by (intros c' m' s0 r0 s0' t0 H0; exact (IH (S i) c' m' s0 r0 s0' t0 H0)).
+      refine (conj _ (conj _ (conj _ _))).
+      + (* position i starts once *)
+        rewrite count_cons, starts_enter, Hn, Nat.eqb_refl. cbn [andb b2n].
+        pose proof (exec_count2 (is_enter i) never i (st c m) _
+                      (fun c' m' s0 r0 s0' t0 H0 =>
+                         ltac:(destruct (Hin c' m' s0 r0 s0' t0 H0) as (_ & _ & H3 & _);
+                               destruct (H3 i (Nat.lt_succ_diag_r i)) as [_ H4];
+                               rewrite H4, count_never; reflexivity))
+                      s r s1 t1 Ex) as H.
+        rewrite count_never in H. cbn in H. rewrite (count_starts_lt n i t1 Hn). lia.
+      + (* calls of position j start position j+1 *)
+        intros j Hij Hjn. rewrite !count_cons, starts_enter.
+        replace (Nat.eqb i (S j)) with false by (symmetry; apply Nat.eqb_neq; lia).
+        rewrite andb_false_r. cbn [b2n is_back].
+        destruct (Nat.eq_dec j i) as [->|Hne].
+        * pose proof (exec_count2 (starts n (S i)) (is_back i) i (st c m) _
+                        (fun c' m' s0 r0 s0' t0 H0 =>
+                           ltac:(destruct (Hin c' m' s0 r0 s0' t0 H0) as (H1 & _ & H3 & _);
+                                 destruct (H3 i (Nat.lt_succ_diag_r i)) as [H4 _];
+                                 rewrite H1, H4, starts_back; cbn [is_back]; rewrite Nat.eqb_refl; reflexivity))
+                        s r s1 t1 Ex) as H.
+          rewrite starts_ret in H. cbn [is_back b2n] in H. lia.
+        * pose proof (exec_count2 (starts n (S j)) (is_back j) i (st c m) _
+                        (fun c' m' s0 r0 s0' t0 H0 =>
+                           ltac:(destruct (Hin c' m' s0 r0 s0' t0 H0) as (_ & H2 & _ & _);
+                                 rewrite (H2 j ltac:(lia) Hjn), starts_back; cbn [is_back];
+                                 replace (Nat.eqb i j) with false by (symmetry; apply Nat.eqb_neq; lia);
+                                 reflexivity))
+                        s r s1 t1 Ex) as H.
+          rewrite starts_ret in H. cbn [is_back b2n] in H. lia.
+      + (* no event of an outer position *)
+        intros j Hj. split.
+        * pose proof (exec_count2 (is_back j) never i (st c m) _
+                      (fun c' m' s0 r0 s0' t0 H0 =>
+                         ltac:(destruct (Hin c' m' s0 r0 s0' t0 H0) as (_ & _ & H3 & _);
+                               destruct (H3 j ltac:(lia)) as [H4 _];
+                               rewrite H4, count_never; cbn [is_back];
+                               replace (Nat.eqb i j) with false by (symmetry; apply Nat.eqb_neq; lia);
+                               reflexivity))
+                      s r s1 t1 Ex) as H.
+          rewrite count_never in H. cbn in H. rewrite count_cons. cbn [is_back b2n]. lia.
+        * pose proof (exec_count2 (is_enter j) never i (st c m) _
+                      (fun c' m' s0 r0 s0' t0 H0 =>
+                         ltac:(destruct (Hin c' m' s0 r0 s0' t0 H0) as (_ & _ & H3 & _);
+                               destruct (H3 j ltac:(lia)) as [_ H4];
+                               rewrite H4, count_never; reflexivity))
+                      s r s1 t1 Ex) as H.
+        rewrite count_never in H. cbn in H. rewrite count_cons. cbn [is_enter].
+        replace (Nat.eqb i j) with false by (symmetry; apply Nat.eqb_neq; lia). cbn [b2n]. lia.
+      + (* entered = returned *)
+        intros j.
+        pose proof (exec_count2 (is_enter j) (is_ret j) i (st c m) _
+                      (fun c' m' s0 r0 s0' t0 H0 =>
+                         ltac:(destruct (Hin c' m' s0 r0 s0' t0 H0) as (_ & _ & _ & H4);
+                               rewrite (H4 j); reflexivity))
+                      s r s1 t1 Ex) as H.
+        cbn [is_enter is_ret] in H. rewrite !count_cons. cbn [is_enter is_ret b2n].
+        destruct (Nat.eqb i j); cbn [b2n] in *; lia.
+  Qed.
+End ChainProofs.
